@@ -933,7 +933,13 @@ func (n *Net) dial(ctx context.Context, d *net.Dialer, network, address string) 
 	if d.LocalAddr != nil {
 		la = d.LocalAddr.String()
 	}
-	rec.Seq = w.Ev("dial %d to %s laddr=%s by %s", rec.ID, address, la, rec.Task)
+	rec.Seq = w.Ev("dial %d (%s) to %s laddr=%s by %s", rec.ID, network, address, la, rec.Task)
+	// what the operating system would refuse outright
+	if err := n.dialSanity(d, network, host); err != nil {
+		w.Ev("dial %d fails: %v", rec.ID, err)
+		w.Fault("dial-refused-by-the-os")
+		return n.dialRet(rec, nil, err, "os-error")
+	}
 	if d.Control != nil {
 		rec.Controls++
 		n.mu.Lock()
@@ -984,6 +990,56 @@ func (n *Net) dial(ctx context.Context, d *net.Dialer, network, address string) 
 		return n.dialRet(rec, c, nil, "conn")
 	}
 	return n.dialRet(rec, nil, n.dialErr(), "refused")
+}
+
+// dialSanity mirrors the checks of the net package and the kernel that do not
+// depend on the remote: the network must fit the address families, and an
+// explicit local port must not be taken by one of the process's own listeners.
+func (n *Net) dialSanity(d *net.Dialer, network, host string) error {
+	rip := net.ParseIP(stripZone(host))
+	v6 := rip != nil && rip.To4() == nil
+	switch network {
+	case "tcp":
+	case "tcp4":
+		if v6 {
+			return &net.OpError{Op: "dial", Net: network, Err: &net.AddrError{Err: "no suitable address found", Addr: host}}
+		}
+	case "tcp6":
+		if rip != nil && !v6 {
+			return &net.OpError{Op: "dial", Net: network, Err: &net.AddrError{Err: "no suitable address found", Addr: host}}
+		}
+	default:
+		return &net.OpError{Op: "dial", Net: network, Err: net.UnknownNetworkError(network)}
+	}
+	la, ok := d.LocalAddr.(*net.TCPAddr)
+	if !ok || la == nil {
+		return nil
+	}
+	if la.IP != nil && rip != nil && (la.IP.To4() == nil) != v6 {
+		return &net.OpError{Op: "dial", Net: network, Err: &net.AddrError{Err: "mismatched local address type", Addr: la.String()}}
+	}
+	if la.Port != 0 {
+		n.mu.Lock()
+		ls := append([]*Listener(nil), n.Listeners...)
+		n.mu.Unlock()
+		for _, l := range ls {
+			lh, lp, _ := net.SplitHostPort(string(l.A))
+			l.mu.Lock()
+			open := !l.closed
+			l.mu.Unlock()
+			if open && lp == fmt.Sprint(la.Port) && (lh == la.IP.String() || lh == "0.0.0.0" || lh == "::") {
+				return &net.OpError{Op: "dial", Net: network, Err: syscall.EADDRINUSE}
+			}
+		}
+	}
+	return nil
+}
+
+func stripZone(h string) string {
+	if i := strings.IndexByte(h, '%'); i >= 0 {
+		return h[:i]
+	}
+	return h
 }
 
 type timeoutErr struct{}
